@@ -2261,8 +2261,22 @@ def replace_with_filter(source: str) -> str:
     )
 
     for range_, replacement, template_match in itertools.chain(iterator1, iterator2):
-        if not core.match_template(template_match.iter, filter_derivative_template):
-            yield range_, replacement
+        if core.match_template(template_match.iter, filter_derivative_template):
+            continue
+
+        # filter(test, ...) evaluates `test` once, before the loop: it may neither have an effect
+        # nor depend on the loop variable.
+        test = getattr(template_match, "test", None)
+        if test is not None:
+            target_names = {
+                node.id for node in ast.walk(template_match.target) if isinstance(node, ast.Name)
+            }
+            if core.has_side_effect(test) or any(
+                _name_mentions(test, name) for name in target_names
+            ):
+                continue
+
+        yield range_, replacement
 
 
 def _get_contains_args(node: ast.Compare) -> Tuple[str, str, bool]:
